@@ -14,8 +14,9 @@ package main
 //	                                   (sum,min,max,avg,count,range of x), GetGroupByBuckets
 //	stats rbmerge <rpn> <p0>|<p1>…     one BlockResults per part, BlockResults.MergeBuckets in <rpn> order
 //
-// The checks and the Lean model follow the code WITH the repairs build/patches/c04-1..4 (IsNumeric merged, FastParseFloat wants a
-// digit, Reduce lets a number beat a running string, AddSegStatsStr uses FastParseFloat); the detectors of the repaired classes stay
+// The checks and the Lean model follow the code WITH the repairs build/patches/c04-1..4 and c04-7 (IsNumeric merged, FastParseFloat
+// wants a digit, Reduce lets a number beat a running string, AddSegStatsStr uses FastParseFloat, group-by avg divides by the number
+// of numeric values); the detectors of the repaired classes stay
 // and now report a VIOLATION when one of them reproduces.
 //
 // <vals> = "-" (empty) or comma separated: i<int64> | d<decimal> (float64) | s<hex> (string) | z (field absent)
@@ -694,7 +695,8 @@ const (
 	st4SigNoDigit    = "stats/addSegStatsStrIngestion/no-digit-string"
 	st4SigNanInf     = "stats/AddSegStatsStr/nan-inf-string"
 	st4SigHexUnd     = "stats/AddSegStatsStr/hex-or-underscore-string"
-	st4SigRecCount   = "stats/groupby-avg-count/record-count"
+	st4SigRecCount   = "stats/groupby-avg-count/record-count" // count(x) of a group = its records: still a known finding
+	st4SigAvgRecs    = "stats/groupby-avg/record-count"       // avg divided by the records of the group: repaired (c04-7)
 	st4SigTextFirst  = "stats/groupby-minmax/text-before-number"
 	st4SigSumOvf     = "stats/int64-sum-overflow"
 	st4SigRangeOvf   = "stats/int64-range-overflow"
@@ -850,7 +852,7 @@ func st4CandsRB(ref *st4Ref) []st4Cand {
 	return []st4Cand{
 		{st4SigSumOvf, ref.absInts.Cmp(st4Two63) >= 0, "sum avg"},
 		{st4SigRecCount, ref.hasAbsent, "count"},
-		{st4SigRecCount, (ref.hasAbsent || len(ref.strs) > 0) && len(ref.nums) > 0, "avg"},
+		{st4SigAvgRecs, (ref.hasAbsent || len(ref.strs) > 0) && len(ref.nums) > 0, "avg"},
 		{st4SigTextFirst, ref.textBeforeNumber, "min max range"},
 		{st4SigTextFirst, ref.nStr > 0 && ref.nIntFloat > 0, "split"},
 	}
